@@ -99,6 +99,14 @@ pub fn start_server_single_worker(c: &Certs) -> Result<SocketAddr> {
     match rx.recv_timeout(std::time::Duration::from_secs(10)) { Ok(Ok(a)) => Ok(a), Ok(Err(e)) => anyhow::bail!("server: {e}"), Err(_) => anyhow::bail!("server did not start") }
 }
 
+/// the server as `selium-server --bind-addr …` alone starts it: certificate, key and CA from their default paths
+pub fn start_server_default_arguments() -> Result<SocketAddr> {
+    let server = Server::try_from(UserArgs::parse_from(["selium-server", "--bind-addr", "127.0.0.1:0"]))?;
+    let addr = server.addr()?;
+    tokio::spawn(async move { let _ = server.listen().await; });
+    Ok(addr)
+}
+
 pub fn start_server(c: &Certs) -> Result<SocketAddr> {
     start_server_with(&c.server("ca.der"), &c.server("localhost.der"), &c.server("localhost.key.der"))
 }
